@@ -2,7 +2,7 @@
 # dev helper: run a check against a PRIVATE worktree of /repo (optionally with a seeded change applied), leaving /repo and the
 # default cache alone.   usage: dev/devcheck.sh <seed name | -> <check id> [extra args]
 seed=$1; id=$2; shift 2
-repo=/tmp/mut/dev-repo; cache=/tmp/mut/dev-cache
+slot=${DEVSLOT:-0}; repo=/tmp/mut/dev-repo$slot; cache=/tmp/mut/dev-cache$slot
 [ -d $repo ] || { git -C /repo worktree add -q --detach $repo HEAD && cp /repo/Cargo.lock $repo/; }
 mkdir -p $cache
 git -C $repo checkout -q -- . ; cp /repo/Cargo.lock $repo/
